@@ -45,6 +45,11 @@ CLAIMED = {
   ref="DESIGN.md §6 C14",
   note="Partial: that rayon's indexed collect preserves order, that worker threads share no hidden state, and that each picked encoder really is local to split-height row groups are runtime / implementation facts exercised by the byte comparison, not proved. Preferred fragment sizes are observed through the public SplitView API on every run. Trusted: Coq kernel; hand-written geometry model tied by differential execution; hook H1 (cfg(dds_verif)) only adds delays.",
   tech="Coq proof (arithmetic of the split + list lemma on group-local encoders) + differential execution + schedule-perturbed byte comparison"),
+ "C09": dict(
+  text="Coq theorems over symbolic u32 fields: RawHeader read/write is the identity on every 124/144-byte image (bit-for-bit, rest untouched) and on every raw header whose DX10 extension is present iff FOURCC+'DX10' is set; every well-formed header is written as magic + 124 (+20) bytes and reads back equal in strict and permissive mode; everything strict parsing returns is well-formed, hence parsing is a normalisation; constructors and the size/dimension/mipmap builders yield well-formed headers (the two unrepresentable classes F6a/F6b are refuted with witnesses and listed as known findings); DX9<->DX10 conversion keeps dimensions and mip count, keeps the pixel layout for every row of the implementation's current tables (finite, by computation on the regenerated tables) and keeps the data layout for 2D, cube and volume resources. The model is tied to src/header.rs by differential execution on 10k+ byte images per run (parse result, detected pixel info and format, bytes written back, conversions).",
+  ref="DESIGN.md §6 C09",
+  note="Trusted: Coq kernel; hand-written model of header.rs tied by differential execution; tables regenerated from /repo each run (DXGI/FourCC/conversion rows through the public API, mask rows by a source scan that re-validates each row against Format::from_header). Builder methods that only set a field (with_array_size, with_alpha_mode, with_pixel_format, ...) are covered by the wf predicate, not individually modelled. Known findings F6a, F6b.",
+  tech="Coq proof (record/bit-flag reasoning, lia for little-endian bytes, finite table theorems by vm_compute) + differential execution on byte images"),
 }
 WIP = "check not built yet (work in progress, see DESIGN.md §10 staging); proof applies and is planned"
 
